@@ -73,7 +73,8 @@ def make(i, base_seed, tier, lite=False):
         ops = [syms[j] for j in _decode(i, len(syms))]
         kind = "bfs"
     else:
-        ops = [rng.choice(syms) for _ in range(rng.randint(5, 12))]
+        # beyond the swept alphabet: ACK payloads switched on / off (`ack = True` also enables auto-ack on pipe 0)
+        ops = [rng.choice(syms + (["ackT", "ackT", "ackF"] if not lite else ["ackT", "ackF"])) for _ in range(rng.randint(5, 12))]
         kind = "random"
     # MCU personality: cost of one SPI transaction. With CircuitPython-class costs a single transaction outlasts the radio's
     # 130 us RX settling time, so the order of the register writes inside a role change becomes observable on the air
@@ -162,6 +163,11 @@ def _run(scn, w, res):
         elif op.startswith("aa"):
             aa = int(op[2:], 16)
             uut.auto_ack = aa
+        elif op == "ackT":
+            uut.ack = True
+            aa |= 1               # documented: ACK payloads need (and switch on) auto-ack and dynamic payloads on pipe 0
+        elif op == "ackF":
+            uut.ack = False
         elif op == "lisT":
             uut.listen = True
             role = "rx"
